@@ -40,7 +40,26 @@ def render_fields(fields, union=False):
     return "\n".join(out)
 
 
+CONSTREF_PRELUDE = "typedef i32 TI\ntypedef string TS\nenum E { A = 1 }\n"
+CONSTREF_VAL = {"i32": "7", "TI": "7", "TS": '"s"', "E": "E.A"}
+
+
+def render_constref(d):
+    """files of a constref program: the constant, and references to it by name from constants, defaults and containers"""
+    decl = CONSTREF_PRELUDE + "const %s %s = %s\n" % (d["ty"], d["txt"], CONSTREF_VAL[d["ty"]])
+    if d["cross"]:
+        q, t = "dep." + d["txt"], "dep." + d["ty"] if d["ty"] != "i32" else "i32"
+        use = ('include "./dep.thrift"\nconst %s second = %s\nconst list<%s> several = [%s, %s]\nstruct S { 1: optional %s f = %s }\n'
+               % (t, q, t, q, q, t, q))
+        return {"dep.thrift": decl, "prog.thrift": use}
+    q, t = d["txt"], d["ty"]
+    use = "const %s second = %s\nconst list<%s> several = [%s, %s]\nstruct S { 1: optional %s f = %s }\n" % (t, q, t, q, q, t, q)
+    return {"prog.thrift": decl + use}
+
+
 def render_names_program(defs):
+    if len(defs) == 1 and defs[0].get("ty"):
+        return render_constref(defs[0])
     out = []
     for d in defs:
         k = d["kind"]
@@ -60,7 +79,7 @@ def render_names_program(defs):
             if not fns:
                 fns = ["  void ping()"]
             out.append("service %s {\n%s\n}" % (d["txt"], "\n".join(fns)))
-    return "\n".join(out) + "\n"
+    return {"prog.thrift": "\n".join(out) + "\n"}
 
 
 TITLE = {}
@@ -189,8 +208,8 @@ def names_cases(ctx):
     for k, c in enumerate(parse_cases(r["out"])):
         opts = OPTION_SETS[(k * 7 + ctx.seed) % len(OPTION_SETS)]
         progs.append({"id": "n%d" % k, "kind": "names", "fam": c["fam"], "defs": c["defs"], "opts": opts, "o": optrec(opts),
-                      "expect": "", "primary": "prog",
-                      "files": {"prog.thrift": render_names_program(c["defs"])}, "runs": [(opts, "prog.thrift")]})
+                      "expect": "", "primary": "dep" if c["defs"][0].get("cross") else "prog", "shadow": False,
+                      "files": render_names_program(c["defs"]), "runs": [(opts, "prog.thrift")]})
     if not progs:
         raise vlib.Inconclusive("MCGoNames printed no cases")
     return progs
@@ -255,7 +274,7 @@ def shape_cases(ctx):
     for k, c in enumerate(parse_cases(r["out"])):
         opts = OPTION_SETS[(k * 5 + ctx.seed) % len(OPTION_SETS)]
         progs.append({"id": "s%d" % k, "kind": "shape", "fam": c["pos"], "defs": [], "opts": opts, "o": optrec(opts), "expect": "accept",
-                      "primary": "prog", "shape": {"pos": c["pos"], "ty": ty_text(c["ty"])},
+                      "primary": "prog", "shadow": False, "shape": {"pos": c["pos"], "ty": ty_text(c["ty"])},
                       "files": {"prog.thrift": render_shape(c)}, "runs": [(opts, "prog.thrift")]})
     if not progs:
         raise vlib.Inconclusive("MCGoShapes printed no cases")
@@ -264,13 +283,17 @@ def shape_cases(ctx):
 
 # ---- hand-written shape families: packages and files, annotations, enums, functions, split generation --------
 FILE_NAMES = ["fmt", "strings", "wire", "errors", "bytes", "math", "strconv", "base64", "json", "zapcore", "multierr", "stream", "thriftreflect",
-              "ptr", "time", "a-b", "a_b", "foo-go", "x.y", "UPPER", "prog2", "types", "constants", "idl"]
+              "ptr", "time", "error", "int8", "int16", "int32", "int64", "float64", "len", "nil", "append", "make", "panic", "any", "copy", "cap", "uint8",
+              "iota", "rune", "zap", "thriftrw", "v", "err", "x", "i", "key", "value", "fields", "text", "count", "field", "ok", "s", "n", "a-b", "a_b", "foo-go", "x.y", "UPPER", "prog2", "types", "constants", "idl"]
+# names of local variables in the generator's templates (newVar "..." and err): an import alias equal to one of them is shadowed
+TEMPLATE_LOCALS = {"v", "x", "o", "i", "w", "sr", "rhs", "k", "enc", "sw", "lhs", "val", "ok", "m", "s", "rv", "n", "lv", "f", "count", "y", "value", "sh", "mh",
+                   "lk", "lh", "l", "fields", "vw", "text", "t", "rk", "kw", "key", "j", "field", "fh", "d", "err"}
 BAD_PACKAGE_NAMES = ["type", "func", "go", "1st", "range", "import", "init", "main"]
 
 
 def mk(pid, fam, files, runs, expect, primary="prog", opts=()):
     return {"id": pid, "kind": "shape", "fam": fam, "defs": [], "opts": list(opts), "o": optrec(list(opts)), "expect": expect, "primary": primary,
-            "shape": {}, "files": files, "runs": runs}
+            "shape": {}, "files": files, "runs": runs, "shadow": fam.startswith("include-") and fam[len("include-"):] in TEMPLATE_LOCALS}
 
 
 def family_cases(ctx):
@@ -344,6 +367,14 @@ def family_cases(ctx):
     add("param-reserved", {"prog.thrift": "service V { void f(1: i32 to_wire) }\n"}, expect="any")
     add("func-meets-func", {"prog.thrift": "service V { void foo_bar(), void fooBar() }\n"}, expect="any")
     add("inherit-cross-file", {"prog.thrift": 'include "./base.thrift"\nservice V extends base.Base { void f() }\n', "base.thrift": "service Base { void ping() }\n"})
+    # helper names derived from type names (mangler), go.name on parameters and declared exceptions
+    add("mangle-string", {"prog.thrift": "struct String { 1: optional i32 x }\nstruct S { 1: optional list<String> a, 2: optional list<string> b }\n"}, expect="any")
+    add("mangle-i32", {"prog.thrift": "struct I32 { 1: optional i32 x }\nstruct S { 1: optional set<I32> a, 2: optional set<i32> b, 3: optional map<I32, I32> c, 4: optional map<i32, i32> d }\n"},
+        expect="any")
+    add("mangle-cross", {"prog.thrift": 'include "./dep.thrift"\nstruct Item { 1: optional i32 x }\nstruct S { 1: optional list<Item> a, 2: optional list<dep.Item> b }\n',
+                         "dep.thrift": "struct Item { 1: optional string y }\n"})
+    add("goname-param", {"prog.thrift": 'service V { i32 f(1: i32 a (go.name = "Renamed"), 2: optional string b (go.name = "Other")) }\n'}, expect="any")
+    add("goname-throws", {"prog.thrift": 'exception X {}\nservice V { i32 f() throws (1: X x (go.name = "Failure")) }\n'}, expect="any")
     # a struct that looks like generated code
     add("helper-like", {"prog.thrift": "struct Default_S {}\nstruct S { 1: optional i32 a = 1 }\nstruct E_Values {}\nenum E { A }\nstruct V_F_Args {}\nservice V { void f() }\n"},
         expect="any")
@@ -383,7 +414,7 @@ def run(ctx):
     for row, why in bad:
         p = bycase[row["id"]]
         r = dict(row)
-        r["_class"] = "other"
+        r["_class"] = "import-alias-meets-template-local" if why == ["KNOWN-CLASS-import-alias-meets-a-template-local"] else "other"
         vlib.report_failure(ctx, r, {"failed": why, "id": row["id"], "thrift": p["files"], "opts": row["opts"], "gen_out": row["gen_out"][-600:],
                                      "build_out": row["build_out"][-600:]}, case=p)
     import collections
